@@ -242,6 +242,7 @@ type load struct {
 	Dup      bool
 	CondOn   bool
 	CondGt   int
+	CondEq   int // 0: no second alternative; else "... OR v = CondEq-1"
 	Shape    string // struct slice ptrslice
 	Levels   [][]row
 	Hops     []hop
@@ -264,7 +265,7 @@ func (l load) Event(caseNo int) hx.M {
 		rs = append(rs, r.JSON())
 	}
 	return hx.M{"ev": "Load", "case": caseNo, "fam": l.Fam, "op": l.Op, "path": l.Path, "unscoped": l.Unscoped, "dup": l.Dup,
-		"cond": hx.M{"on": l.CondOn, "gt": l.CondGt}, "shape": l.Shape, "levels": lv, "hops": hs, "result": rs, "count": l.Count, "err": l.Err}
+		"cond": hx.M{"on": l.CondOn, "gt": l.CondGt, "eq": l.CondEq - 1}, "shape": l.Shape, "levels": lv, "hops": hs, "result": rs, "count": l.Count, "err": l.Err}
 }
 
 // ---------------------------------------------------------------------------------------------
@@ -443,6 +444,7 @@ func (e *Env) runF1(r *rand.Rand, d *f1data) load {
 	if l.Unscoped {
 		tx = tx.Unscoped()
 	}
+	var joinConds []interface{}
 	if o.op == "find" {
 		// association mode on one live parent
 		var live []SA
@@ -473,10 +475,19 @@ func (e *Env) runF1(r *rand.Rand, d *f1data) load {
 	if o.op == "preload" {
 		if o.path == "Kids" && r.Intn(3) == 0 {
 			l.CondOn, l.CondGt = true, r.Intn(4)
+			gt, eq := l.CondGt, -1
 			if r.Intn(2) == 0 {
-				tx = tx.Preload("Kids", "v > ?", l.CondGt)
-			} else {
-				gt := l.CondGt
+				eq = r.Intn(4)
+			}
+			l.CondEq = eq + 1
+			switch {
+			case eq >= 0 && r.Intn(2) == 0:
+				tx = tx.Preload("Kids", "v > ? OR v = ?", gt, eq)
+			case eq >= 0:
+				tx = tx.Preload("Kids", func(db *gorm.DB) *gorm.DB { return db.Where("v > ?", gt).Or("v = ?", eq) })
+			case r.Intn(2) == 0:
+				tx = tx.Preload("Kids", "v > ?", gt)
+			default:
 				tx = tx.Preload("Kids", func(db *gorm.DB) *gorm.DB { return db.Where("v > ?", gt) })
 			}
 		} else if r.Intn(4) == 0 && (o.path == "SB" || o.path == "Kids" || o.path == "One") {
@@ -489,10 +500,24 @@ func (e *Env) runF1(r *rand.Rand, d *f1data) load {
 			l.Dup = true
 			tx = tx.Joins("JOIN dup2 ON 1 = 1")
 		}
-	} else if o.op == "joins" {
-		tx = tx.Joins(o.path)
 	} else {
-		tx = tx.InnerJoins(o.path)
+		// a join by relation name may carry conditions on the joined rows (ON clause)
+		var conds []interface{}
+		if (o.path == "SB" || o.path == "One") && r.Intn(3) == 0 {
+			l.CondOn, l.CondGt, l.CondEq = true, r.Intn(4), 0
+			q := e.DB.Where("v > ?", l.CondGt)
+			if r.Intn(2) == 0 {
+				l.CondEq = 1 + r.Intn(4)
+				q = q.Or("v = ?", l.CondEq-1)
+			}
+			conds = []interface{}{q}
+		}
+		joinConds = conds
+		if o.op == "joins" {
+			tx = tx.Joins(o.path, conds...)
+		} else {
+			tx = tx.InnerJoins(o.path, conds...)
+		}
 	}
 	var err error
 	switch l.Shape {
@@ -519,15 +544,17 @@ func (e *Env) runF1(r *rand.Rand, d *f1data) load {
 		}
 		switch o.op {
 		case "preload":
-			if l.CondOn {
+			if l.CondOn && l.CondEq > 0 {
+				q = q.Preload("Kids", "v > ? OR v = ?", l.CondGt, l.CondEq-1)
+			} else if l.CondOn {
 				q = q.Preload("Kids", "v > ?", l.CondGt)
 			} else {
 				q = q.Preload(o.path)
 			}
 		case "joins":
-			q = q.Joins(o.path)
+			q = q.Joins(o.path, joinConds...)
 		default:
-			q = q.InnerJoins(o.path)
+			q = q.InnerJoins(o.path, joinConds...)
 		}
 		err = q.Where("sas.id = ?", a.ID).Take(&out).Error
 		l.Levels[0] = []row{{ID: ik(a.ID), BFK: ikp(a.SBID), Del: d.adel[a.ID]}}
